@@ -59,6 +59,10 @@ def _p9(ctx):
         for sid in x.switches():
             e = g.switch_expr(sid)
             if any(s[0] == 'fld' and s[2] == 'InnerRecv.alive' for s in g.walk(e)):
+                # an assertion about the flag (`debug_assert!(self.alive)`: one side only panics) is not the guard
+                sides = [x.switch_edges(sid, 'zero'), x.switch_edges(sid, 'nonzero')]
+                if any(es and not any((x.reach_from(e_) | {e_}) & set(g.exits) for e_ in es) for es in sides):
+                    continue
                 alive_edges.update(x.switch_edges(sid, 'nonzero'))
         if not alive_edges and 'Fut' in rsub:
             # the explicit Drop does not unsubscribe itself (it leaves that to the destructor of its
